@@ -221,10 +221,11 @@ def conditional(c: int, kind: int, nest: int) -> bool:
 
 def dotf_locals(n: int, m: int, form: int) -> bool:
     """
-    pre: 0 <= n <= 3 and 0 <= form <= 2
+    pre: 0 <= n <= 3 and 0 <= form <= 4
     post: _
     """
-    # recursion through .f: every level has its own parameters AND its own declared locals, exactly like recursion by name
+    # recursion through .f: every level has its own parameters AND its own declared locals, exactly like recursion by name;
+    # .f still names the running function after OTHER functions were called and have returned (helper, lambda under an adverb)
     enter()
     try:
         _reset()
@@ -234,6 +235,11 @@ def dotf_locals(n: int, m: int, form: int) -> bool:
             got = K('{[a];a::x+B;:[x>0;.f(x-1);0];a}(A)'); want = n + m
         elif form == 1:
             got = K('{[a t];a::x;t::y;:[x>0;.f(x-1;y+1);0];(100*a)+t}(A;B)'); want = 100 * n + m
+        elif form == 3:
+            K('g::{x*B}')
+            got = K('{:[x<1;0;.f(x-1)+g(x)]}(A)'); want = m * (n * (n + 1) // 2)
+        elif form == 4:
+            got = K("{:[x<1;0;.f(x-1)+*{x+B}'x,x]}(A)"); want = (n * (n + 1) // 2) + n * m
         else:
             K('f::{[a];a::x+B;:[x>0;.f(x-1);0];a}')
             got = K("f'[;A;A]"); want = [n + m, n + m]
